@@ -16,7 +16,7 @@ DAY = 86400 * 10**6
 T_LO = us_of(1970, 1, 2)
 T_HI = us_of(9999, 12, 30)
 PERIODS = {"us": 365, "es": 365, "jp": None, "ie": None}
-BUDGET = {"quick": 300, "thorough": 900}
+BUDGET = {"quick": 300, "thorough": 1500}
 
 ENV_TABLE = [
     ("0", 0),
